@@ -511,3 +511,49 @@ def _map_comprehension_hook(ex, e, frame, it, gi):
 
 
 M.COMPREHENSION_HOOKS.append(_map_comprehension_hook)
+
+
+# ---------------------------------------------------------------------------
+# re.search for simple fixed patterns (optional ^, literal text, optional $)
+
+
+def _re_search(ex, args, kwargs):
+    import re
+    pat, subj = args[0], args[1]
+    if is_sym(pat) or not isinstance(pat, str):
+        raise Unsupported("re.search with a symbolic pattern")
+    if all_c([subj]):
+        return re.search(pat, subj)
+    body = pat
+    start = body.startswith("^")
+    if start:
+        body = body[1:]
+    end = body.endswith("$") and not body.endswith("\\$")
+    if end:
+        body = body[:-1]
+    if re.escape(body) != body and any(ch in body for ch in ".*+?[](){}|\\^$"):
+        raise Unsupported(f"re.search pattern {pat!r} is outside the modelled subset")
+    ex.assumptions_used.add("T-STD: re.search for fixed patterns (^, literal, $) as prefix / substring / suffix tests")
+    t = term(subj, STR)
+    lit = z3.StringVal(body)
+    if start and end:
+        r = t == lit
+    elif start:
+        r = z3.PrefixOf(lit, t)
+    elif end:
+        r = z3.SuffixOf(lit, t)
+    else:
+        r = z3.Contains(t, lit)
+    return SV(r, BOOL)
+
+
+def all_c(v):
+    return M.all_concrete(v)
+
+
+def install_re():
+    import re
+    M.REAL_CALL[re.search] = _re_search
+
+
+install_re()
